@@ -17,7 +17,7 @@ from checks import reapers_common as rc
 NSIM = {"quick": 150, "thorough": 1500}
 PER_PREFIX = {"quick": 4, "thorough": 6}
 MC = ["Reapers_MC.cfg", "Reapers_MCLive.cfg", "Reapers_MCGrid.cfg", "Reapers_MCCluster.cfg"]
-MC_BIG = ["Reapers_MCDeep.cfg", "Reapers_MCGrid2.cfg", "Reapers_MCFull.cfg"]     # thorough tier only
+MC_BIG = ["Reapers_MCDeep.cfg", "Reapers_MCLiveDeep.cfg", "Reapers_MCGrid2.cfg", "Reapers_MCFull.cfg"]     # thorough tier only
 
 
 def lifecycle_liveness_behaviours(run, rng):
@@ -41,6 +41,17 @@ def lifecycle_liveness_behaviours(run, rng):
             for i in range(n2):
                 for f in ("poolPatch", "deleteFail", "statusPatch", "mainPatch"):
                     behs.append({"cfg": cfg, "steps": lc.with_fault(tp, {i: f}) + [{"a": "Rec"}], "tag": "timeout:%s:%d:%s" % (kind, i, f)})
+        # (c) registered in time but never initialized (startup / ephemeral taint kept, node NotReady, extended resource never
+        #     reported): the real controller registers the node itself; reconciles around 900 s after that and much later
+        for ready in (False, True):
+            steps = [{"a": "Rec"}, {"a": "Rec"},
+                     {"a": "NodeAppears", "unreg": True, "startup": True, "eph": True, "ready": ready, "res": False},
+                     {"a": "Rec"}, {"a": "Rec"}, {"a": "Tick", "d": 290}, {"a": "Rec"}, {"a": "Tick", "d": 12}, {"a": "Rec"},
+                     {"a": "Tick", "d": 585}]
+            for _ in range(16):
+                steps += [{"a": "Rec"}, {"a": "Tick", "d": 1}]
+            steps += [{"a": "Rec"}, {"a": "Tick", "d": 7200}, {"a": "Rec"}, {"a": "Restart"}, {"a": "Rec"}]
+            behs.append({"cfg": cfg, "steps": steps, "tag": "c16-uninitialized:ready=%s" % ready})
     return behs
 
 
@@ -54,7 +65,10 @@ def check(run):
                 "instance listed/gone, node Ready/NotReady/Unknown/absent/duplicate} x a failure at each read; node repair x "
                 "pool sizes 1..11 x unhealthy counts around ceil(20%) (some already terminating) x pool/standalone x sub-second "
                 "toleration offsets x read faults of each kind, multi-wave repair histories; "
-                "liveness x both timeouts x offsets x faults (reapers world and the lifecycle driver). Each is replayed on "
+                "liveness x both timeouts x offsets x faults, registered-but-uninitialized claims kept for hours (node NotReady / "
+                "startup or ephemeral taint / extended resource missing), repair-policy lists with several statuses of one "
+                "condition type in both orders, one environment step between the GC pass's listing reads (reapers world and "
+                "the lifecycle driver). Each is replayed on "
                 "the real controllers; non-trivial = the real trace contains an effective NodeClaim delete by a reaper "
                 "(a guarded event of C16)")
     # ---- closed model: invariants, vacuity
@@ -128,6 +142,8 @@ def check(run):
         "the pool's nodes = Nodes carrying the claim's karpenter.sh/nodepool label; a standalone claim is judged against every Node of the cluster",
         "two or more Nodes with the claim's provider id (documented by Karpenter as an invalid, deliberately ignored state) are accepted by the garbage-collection guard",
         "only effective deletes (object present and not already deleting, call succeeded) are judged",
+        "garbage collection: 'the provider no longer lists its instance' = absent from the listing the pass read successfully AND absent from the provider's instance table at the instant of the delete (instances never come back in the harness provider); one environment step may be scheduled between the pass's two listing reads",
+        "the lifecycle controller runs in the reapers world with a clock whose Sleep returns at once (its 1 s read-your-writes wait does not move scenario time)",
     ]
 
 
